@@ -13,6 +13,8 @@ bin/simrun -selftest
 go test -count=1 ./sim/kernel ./sim/driver ./sim/ref
 # warm the race-enabled build cache (used by the C20 check)
 go build -race -tags verif -o .work/simrun-race-warm ./cmd/simrun && rm -f .work/simrun-race-warm
+# warm the GOAMD64=v3 build cache (third build configuration of the C19 check)
+GOAMD64=v3 go build -tags verif -o .work/simrun-v3-warm ./cmd/simrun && rm -f .work/simrun-v3-warm
 # warm the build cache of the newer toolchain (the stall world of C09/C14 runs in testing/synctest bubbles)
 if command -v go1.26.8 >/dev/null; then
   go1.26.8 test -c -tags verif -o .work/simstall-warm.test ./sim/worlds/stall && rm -f .work/simstall-warm.test
